@@ -40,6 +40,10 @@ type Check struct {
 	Budget func(tier string) time.Duration
 }
 
+// ChildWorker, when set, is what the binary does when it is started with the
+// argument --child-worker (the prefork master of C20 re-executes os.Args[0]).
+var ChildWorker func()
+
 var registry = map[string]*Check{}
 
 // Register adds a check (called from init functions).
